@@ -86,6 +86,11 @@ func main() {
 		for i := 0; i < nm; i++ {
 			batches = append(batches, batch{Idx: 2000 + i, Kind: "tmagic", NGPU: 1 + i%2, Ops: c.N(15, 50)})
 		}
+		// bare driver, magic copy path, devices of a few pages: free lists wrap (smalldram.go)
+		ns := c.N(8, 64)
+		for i := 0; i < ns; i++ {
+			batches = append(batches, batch{Idx: 3000 + i, Kind: "small", NGPU: 1 + i%4, Ops: c.N(300, 3000)})
+		}
 		// canonical battery (seed independent)
 		batches = append(batches,
 			batch{Idx: 9000, Kind: "canon-emu", NGPU: 2},
@@ -160,6 +165,7 @@ func main() {
 		Rule: "case = one host-device copy (path emu|dma|tmagic, direction, element type, arena offset, length) issued through the real driver API on a real platform, " +
 			"judged by a host-side shadow byte array per context (updated by every H2D and by the defined effect of every generated element-wise kernel) " +
 			"and, on the DMA path, by the completion checker over driver/CP/DMA port events; " +
+			"small-dram children (bare real driver, magic copy path, 1..4 devices of 12..28 pages: allocate / free / Remap / Distribute / H2D histories in which every free list wraps, every H2D followed by a read-back of every live buffer) are judged by a shadow per buffer; " +
 			"re-homing steps (Remap of a page range / Distribute of a buffer that kernels have read and written and host copies have filled, then H2D / copy-kernel rewrite, kernels on the same queue with grids of >= 64 work-groups or small grids repeated, D2H) are judged by the same shadow; " +
 			"non-trivial = distinct (path, direction, type, offset within page, length, boundary class) of a copy whose range crosses a 64-byte line, a page or a GPU boundary",
 		Assumptions: []string{
@@ -175,6 +181,11 @@ func main() {
 		MinCounters: map[string]int64{
 			"generated_copy_ops|emu":                                                      int64(c.N(1900, 95000)),
 			"generated_copy_ops|dma":                                                      int64(c.N(140, 4800)),
+			"generated_copy_ops|small-dram":                                               int64(c.N(500, 30000)),
+			"allocations_receiving_a_previously_freed_frame|small-dram":                   int64(c.N(300, 20000)),
+			"remaps|small-dram":                                                           int64(c.N(40, 2000)),
+			"distributes|small-dram":                                                      int64(c.N(15, 800)),
+			"h2d_after_a_rehoming_with_other_live_buffers|small-dram":                     int64(c.N(1000, 50000)),
 			"generated_copy_ops|tmagic":                                                   int64(c.N(25, 400)),
 			"d2h_results_compared":                                                        int64(c.N(3000, 100000)),
 			"copies_crossing_nonadjacent_pages_unaligned|h2d":                             int64(c.N(200, 5000)),
@@ -252,6 +263,8 @@ func kindPath(kind string) string {
 	switch {
 	case kind == "emu" || strings.HasPrefix(kind, "canon-emu") || strings.HasPrefix(kind, "emu-"):
 		return "emu"
+	case kind == "small":
+		return "small"
 	case kind == "tmagic" || strings.HasPrefix(kind, "canon-tmagic") || strings.HasPrefix(kind, "tmagic-"):
 		return "tmagic"
 	}
